@@ -192,35 +192,6 @@ def approx_equal(a, b, tol=1e-9):
     return coarse(a) == coarse(b)
 
 
-def approx_equal_old(a, b, tol=1e-9):
-    if isinstance(a, list) and isinstance(b, list):
-        return len(a) == len(b) and all(approx_equal(x, y, tol) for x, y in zip(a, b))
-    if isinstance(a, dict) and isinstance(b, dict):
-        return a.keys() == b.keys() and all(approx_equal(a[k], b[k], tol) for k in a)
-    if isinstance(a, str) and isinstance(b, str) and "/" in a and "/" in b:
-        try:
-            x, y = Fraction(a), Fraction(b)
-            return abs(x - y) <= tol * max(1, abs(x), abs(y))
-        except Exception:
-            return a == b
-    return a == b
-
-
-def choice_logs(p, sp):
-    """spell the program and record, per multi-way choice in program order, the listed probability
-    token lists when the last one is omitted"""
-    logs = []
-    orig = T.rhs_toks
-
-    def rec(r, s):
-        out = orig(r, s)
-        return out
-
-    # re-walk: the spelling is deterministic only for non-random parentheses, so logs are taken
-    # from the same call that produced the text (see spell())
-    return logs
-
-
 def spell(p, sp):
     """-> (tokens, text, logs)"""
     logs = []
@@ -250,15 +221,10 @@ def spell(p, sp):
     return toks, T.render(toks, sp), logs
 
 
-def program_features(p):
-    txt = json.dumps(p, default=str)
-    return txt
-
-
 # ---- K: parse-level correspondence ---------------------------------------------------------------
 def parse_correspondence(ctx, hist):
     rng = ctx.rng
-    nprog = ctx.pick(50, 500)
+    nprog = ctx.pick(45, 500)
     progs = []
     for i in range(nprog):
         g = T.ProgGen(rng)
@@ -277,7 +243,7 @@ def parse_correspondence(ctx, hist):
             entries.append((kind, sp, text, logs))
         tasks.append({"kind": "c19_parse", "texts": [e[2] for e in entries], "timeout": 120})
         meta.append((p, g, md, entries))
-    results = lib.run_tasks(tasks, timeout=120)
+    results = yield tasks
     for (p, g, md, entries), r in zip(meta, results):
         if "results" not in r:
             ctx.violation("worker:" + r.get("error", "?"), {"result": r, "texts": [e[2] for e in entries]},
@@ -348,7 +314,7 @@ def frac_twin(e):
 # ---- arithmetic precedence ---------------------------------------------------------------------------
 def precedence_check(ctx, hist):
     rng = ctx.rng
-    n = ctx.pick(300, 3000)
+    n = ctx.pick(280, 3000)
     exprs = []
     pts = [{"x": str(Fraction(rng.randint(-7, 7), rng.randint(1, 5))), "y": str(Fraction(rng.randint(1, 9), rng.randint(1, 4))),
             "z": str(Fraction(rng.randint(-9, -1), rng.randint(1, 3)))} for _ in range(4)]
@@ -364,7 +330,7 @@ def precedence_check(ctx, hist):
     per = 25
     for j in range(0, len(exprs), per):
         tasks.append({"kind": "c19_eval", "exprs": [t for _, t in exprs[j:j + per]], "points": pts, "timeout": 120})
-    results = lib.run_tasks(tasks, timeout=120)
+    results = yield tasks
     shapes = {"polynomial": 0, "rational-function": 0, "undefined-at-all-points": 0, "decimal-float-known": 0}
     pending = []
     k = 0
@@ -438,7 +404,7 @@ def precedence_check(ctx, hist):
         twins = []
         for e, text, x, replay in pending:
             twins.append(T.render(T.print_min(frac_twin(e)), T.Spelling(rng)).strip())
-        tr = lib.run_tasks([{"kind": "c19_eval", "exprs": twins, "points": pts, "timeout": 120}], timeout=120)[0]
+        tr = (yield [{"kind": "c19_eval", "exprs": twins, "points": pts, "timeout": 120}])[0]
         for (e, text, x, replay), tw, y in zip(pending, twins, tr.get("results", [{}] * len(pending))):
             okt = "values" in y
             if okt:
@@ -505,7 +471,7 @@ def analysis_check(ctx, hist):
             text = T.prog_text(p, sp)
             tasks.append({"kind": "c19_analyze", "text": text, "goals": gtxt, "nmax": nmax, "timeout": 150})
             meta.append((p, name, text))
-    results = lib.run_tasks(tasks, timeout=150)
+    results = yield tasks
     ofiles = [(f"c19_oracle_{j}", oracle.moments_file({k: v for k, v in p.items() if k != "shape"}, goals, n_or))
               for j, p in enumerate(progs)]
     oouts = lib.coq_run_many(ctx, ofiles, timeout=100)
@@ -608,7 +574,7 @@ def analysis_check(ctx, hist):
 # ---- malformed texts ----------------------------------------------------------------------------------
 def malformed_check(ctx, hist):
     rng = ctx.rng
-    nprog = ctx.pick(45, 400)
+    nprog = ctx.pick(40, 400)
     tasks, meta = [], []
     for _ in range(nprog):
         g = T.ProgGen(rng, {"decarith": False})
@@ -627,7 +593,7 @@ def malformed_check(ctx, hist):
             kinds.append(kind)
         tasks.append({"kind": "c19_parse", "texts": texts, "timeout": 120})
         meta.append((p, kinds, texts))
-    results = lib.run_tasks(tasks, timeout=120)
+    results = yield tasks
     for (p, kinds, texts), r in zip(meta, results):
         if "results" not in r:
             ctx.violation("worker:" + r.get("error", "?"), {"result": r}, "Polar worker failed on a malformed-text task", no_input=True)
@@ -675,8 +641,8 @@ def invalid_probability_check(ctx, hist):
             lab = {"probs": [str(q) for q in ps], "why": "negative or sum > 1, last omitted"}
         texts.append(f"x = 0\nwhile true:\n    x = {body}\nend\n")
         labels.append(lab)
-    res = lib.run_tasks([{"kind": "c19_parse", "texts": texts, "timeout": 120}], timeout=120)[0]
-    an = lib.run_tasks([{"kind": "c19_analyze", "text": texts[0], "goals": ["x"], "nmax": 2, "timeout": 60}], timeout=60)[0]
+    res, an = yield [{"kind": "c19_parse", "texts": texts, "timeout": 120},
+                     {"kind": "c19_analyze", "text": texts[0], "goals": ["x"], "nmax": 2, "timeout": 60}]
     hist["invalid_probabilities"] = {"texts": len(texts), "accepted": 0, "rejected": 0}
     if "results" not in res:
         ctx.violation("worker:" + res.get("error", "?"), {"result": res}, "Polar worker failed on the probability stream", no_input=True)
@@ -723,7 +689,7 @@ def goal_check(ctx, hist):
             goals.append(gtxt)
             meta.append((e, want, gtxt))
     bad = ["E(x", "Ex)", "E()", "Q(x)", "E(x+)", "c(x)", "kx(x)", "E(x*)", "P(x > 1)", "E(x))"]
-    res = lib.run_tasks([{"kind": "c19_goals", "goals": goals + bad, "timeout": 120}], timeout=120)[0]
+    res = (yield [{"kind": "c19_goals", "goals": goals + bad, "timeout": 120}])[0]
     if "results" not in res:
         ctx.violation("worker:" + res.get("error", "?"), {"result": res}, "Polar worker failed on the goal stream", no_input=True)
         return
@@ -774,7 +740,7 @@ def quirk_stream(ctx):
     texts = [f"x = 0\ny = 1\nwhile true:\n    {b}\nend\n" for b, _ in QUIRKS]
     texts.append("x = 0\nwhile x > 0 && x < 5 || x == 7:\n    x = 1\nend\n")
     texts.append("x = 0\nwhile x /= 0:\n    x = 1\nend\n")
-    res = lib.run_tasks([{"kind": "c19_parse", "texts": texts, "timeout": 120}], timeout=120)[0]
+    res = (yield [{"kind": "c19_parse", "texts": texts, "timeout": 120}])[0]
     out = []
     notes = QUIRKS + [("while x > 0 && x < 5 || x == 7", "&& and || share one level, right associative"),
                       ("while x /= 0", "/= is lexed and parsed; rejected later")]
@@ -842,19 +808,46 @@ def run(ctx):
     hist = {"spelling": {}, "mutation": {}, "error": {}, "known": {}, "analysis_shapes": {}}
     import time
     walls = {}
-    for name, fn in (("mirror", lambda: mirror_crosscheck(ctx)), ("parse", lambda: parse_correspondence(ctx, hist)),
-                     ("precedence", lambda: precedence_check(ctx, hist)), ("malformed", lambda: malformed_check(ctx, hist)),
-                     ("probabilities", lambda: invalid_probability_check(ctx, hist)),
-                     ("goals", lambda: goal_check(ctx, hist)),
-                     ("analysis", lambda: analysis_check(ctx, hist)), ("quirks", lambda: quirk_stream(ctx))):
+    t0 = time.time()
+    mirror_crosscheck(ctx)
+    walls["mirror"] = round(time.time() - t0, 1)
+    # all Polar work goes through ONE worker pool (worker start-up = importing sympy + Polar dominates
+    # otherwise); the phases are generators that yield their task lists and receive the answers
+    gens = [("analysis", analysis_check(ctx, hist)), ("parse", parse_correspondence(ctx, hist)),
+            ("precedence", precedence_check(ctx, hist)), ("malformed", malformed_check(ctx, hist)),
+            ("probabilities", invalid_probability_check(ctx, hist)), ("goals", goal_check(ctx, hist)),
+            ("quirks", quirk_stream(ctx))]
+    pending = []
+    for name, g in gens:
+        try:
+            pending.append((name, g, next(g)))
+        except StopIteration:
+            pass
+    rounds = 0
+    while pending:
+        rounds += 1
         t0 = time.time()
-        fn()
-        walls[name] = round(time.time() - t0, 1)
+        all_tasks = []
+        spans = []
+        for name, g, tasks in pending:
+            spans.append((len(all_tasks), len(tasks)))
+            all_tasks += tasks
+        results = lib.run_tasks(all_tasks, timeout=150) if all_tasks else []
+        walls[f"polar_pool_round{rounds}"] = round(time.time() - t0, 1)
+        t0 = time.time()
+        nxt = []
+        for (name, g, tasks), (a, n) in zip(pending, spans):
+            try:
+                nxt.append((name, g, g.send(results[a:a + n])))
+            except StopIteration:
+                pass
+        walls[f"compare_round{rounds}"] = round(time.time() - t0, 1)
+        pending = nxt
     ctx.coverage["phase_wall_s"] = walls
     ctx.coverage["rule"] = (
         "program ASTs from textgen.ProgGen (nested if/elif/else, 2-4-way choices with constant, compound and parametric "
         "probabilities, simultaneous assignment, draws, types block, conditions with ! && ||), each written in the spellings "
-        + ", ".join(T.SPELLING_KINDS) + "; every spelling parsed by inputparser.Parser and its canonical dump compared with the "
+        + ", ".join(T.SPELLING_KINDS + ["implicit-last-min", "comment-line-in-types"]) + "; every spelling parsed by inputparser.Parser and its canonical dump compared with the "
         "model of the structure transformer.  Arithmetic ASTs from textgen.gen_sx printed by the verified minimal printer and "
         "evaluated at 4 rational points.  Malformed: one mutation of each applicable kind per program, only mutants the "
         "reference grammar rejects.  non-trivial = body of >= 2 statements / expression text longer than 6 characters; "
